@@ -148,6 +148,12 @@ func zero(t types.Type) Value {
 		return nil
 	case *types.Struct:
 		named, _ := t.(*types.Named)
+		if named != nil && named.Obj().Pkg() != nil {
+			// var b strings.Builder / var b bytes.Buffer
+			if pn := named.Obj().Pkg().Path() + "." + named.Obj().Name(); pn == "strings.Builder" || pn == "bytes.Buffer" {
+				return &Buf{}
+			}
+		}
 		if named == nil {
 			if a, ok := t.(*types.Alias); ok {
 				named, _ = types.Unalias(a).(*types.Named)
